@@ -948,14 +948,16 @@ def check_invalid_nodes(tree_or_ts, N, flags, samples, acc, case, level):
         sets = [list(samples[:1]), [u]]
         got = expect_valueerror(lambda: call(sets))
         acc.ev(1, True)
-        if got[0] == "ok":
+        # The property quantifies over families of (valid) sample sets; what happens for ids that are
+        # not nodes at all is C09's business (no crash), so only genuine non-sample NODES are judged
+        # here, and any exception type counts as a rejection.
+        if got[0] == "ok" and cls == "nonsample":
             acc.fail(f"{level}_count:{cls}_node_accepted",
                      f"count_topologies({sets}) returned a result; {N} nodes, flags {flags}", dict(case, sets=sets))
+        elif got[0] == "ok":
+            acc.count(f"dontcare_{level}_count_{cls}_node_accepted")
         elif got[0] == "other":
-            if cls == "negative" and -u > N:
-                cls = "oob"
-            acc.fail(f"{level}_count:{cls}_node_exception",
-                     f"count_topologies({sets}) -> {got[1]}, documented ValueError; {N} nodes", dict(case, sets=sets))
+            acc.count(f"dontcare_{level}_count_{cls}_node_other_exception")
 
 
 def leafsubset_flags(N, ranks, cells):
